@@ -265,7 +265,7 @@ func (g *Gen) Leaf(depth int) *R {
 	case 11:
 		return &R{Op: "fmterrorf", Fmt: g.fmtCallX(0, false, false, true)}
 	default:
-		kinds := []string{"plain", "val", "nocmp", "istag", "safedet", "safemsg", "hinter"}
+		kinds := []string{"plain", "val", "nocmp", "istag", "safedet", "safemsg", "hinter", "dual"}
 		k := g.r.pick(kinds)
 		if g.NoUserAnnot && k == "hinter" {
 			k = "plain"
@@ -429,7 +429,7 @@ func (g *Gen) Wrapper(kid *R, depth int) *R {
 		}
 		return &R{Op: "fmterrorf", Fmt: f}
 	default:
-		kinds := []string{"unwrap", "cause", "both", "full", "empty", "safedet", "as"}
+		kinds := []string{"unwrap", "cause", "both", "full", "empty", "safedet", "as", "nocmp"}
 		k := g.r.pick(kinds)
 		r := &R{Op: "uwrap", S: []string{k, g.sU()}, Kids: k1, Strs: []string{}}
 		if k == "safedet" {
